@@ -562,9 +562,35 @@ def range_int_into_iter(it, args, callee):
     return args[0]
 
 
+@pattern(r'^(std::ops::|core::ops::)?RangeInclusive::<' + INT_RX + r'>::new$')
+def range_incl_new(it, args, callee):
+    return Agg('RangeInclusive', (args[0], args[1], False))
+
+
 @pattern(r'^<(std::ops::|core::ops::)?RangeInclusive<' + INT_RX + r'> as (IntoIterator)>::into_iter$')
 def range_incl_into_iter(it, args, callee):
-    raise Unsupported('RangeInclusive iteration')
+    return args[0]
+
+
+@pattern(r'^<(std::ops::|core::ops::)?RangeInclusive<' + INT_RX + r'> as Iterator>::next$')
+def range_incl_next(it, args, callee):
+    ty = re.search(r'RangeInclusive<(\w+)>', callee).group(1)
+    r = args[0]
+    v = rd(r)
+    lo, hi, done = v.f
+    if done or it.truth(it.binop('Gt', lo, hi, ty)):
+        return NONE
+    if it.truth(it.binop('Eq', lo, hi, ty)):
+        wr(r, Agg(v.ty, (lo, hi, True)))
+    else:
+        wr(r, Agg(v.ty, (it.binop('Add', lo, 1, ty), hi, False)))
+    return Some(lo)
+
+
+@pattern(r'^(std::ops::|core::ops::)?RangeInclusive::<' + INT_RX + r'>::(start|end)$')
+def range_incl_bounds(it, args, callee):
+    v = deref_all(args[0])
+    return Ref(Cell(v.f[0] if callee.endswith('start') else v.f[1], 'bound'), ())
 
 
 @pattern(r'^(std::ops::|core::ops::)?Range(Inclusive)?::<' + INT_RX + r'>::contains::<.*>$')
